@@ -72,7 +72,7 @@ def opt_case(draw):
     N = draw(st.integers(1, 4))
     W = draw(st.integers(1, max(1, min(6, 12 // N))))
     return {"N": N, "W": W, "seed": draw(st.integers(0, 2 ** 32 - 1)), "v": draw(st.sampled_from(VALUES)),
-            "rho": draw(st.sampled_from([1.0, 1.0, 0.5, 3.0]))}
+            "rho": draw(st.sampled_from([1.0, 1.0, 0.5, 3.0])), "callback": draw(st.sampled_from([False, False, True]))}
 
 
 def execute_opt(case, t):
@@ -83,16 +83,21 @@ def execute_opt(case, t):
     A = rng.normal(size=(3 * n + 2, n)) @ (np.eye(n) + 0.4 * rng.normal(size=(n, n)))
     S = np.atleast_2d(np.cov(A.T))
     v = case["v"]
-    ref = admm.admm_optimize_theta(S, float(v), W, N, rho=case["rho"]).theta
+    kw = {"rho": case["rho"]}
+    if case.get("callback"):
+        from props.C02 import balancing_callback
+        kw["rho_update"] = balancing_callback           # a step-size rule that really changes rho during the solve
+        t.cls("with_rho_update_callback")
+    ref = admm.admm_optimize_theta(S, float(v), W, N, **kw).theta
     forms = scalar_forms(v)[1:] + matrix_forms(v, n)
     # one array object per shape that is refilled in place from case to case (parameter sweep): identity-keyed caches show here
     # a sweep over weights that refills one preallocated matrix: solve with another weight, refill in place, solve again
     buf = buffers.reuse("C18.lam", np.full((n, n), float(v)))
     other = 0.37 if v != 0.37 else 0.21
     buf.fill(other)
-    admm.admm_optimize_theta(S, buf, W, N, rho=case["rho"])
+    admm.admm_optimize_theta(S, buf, W, N, **kw)
     buf.fill(float(v))
-    got = admm.admm_optimize_theta(S, buf, W, N, rho=case["rho"]).theta
+    got = admm.admm_optimize_theta(S, buf, W, N, **kw).theta
     if got.shape != ref.shape or not np.array_equal(got.view(np.uint64), ref.view(np.uint64)):
         raise Violation(f"sparsity weight {v} given as a matrix buffer that was refilled in place after a solve with weight {other} "
                         f"gives a different Theta than the Python float (max |diff| {float(np.max(np.abs(got - ref))):.3g}; N={N}, W={W})")
@@ -100,7 +105,7 @@ def execute_opt(case, t):
     for name, lam in forms:
         keep = lam.copy() if isinstance(lam, np.ndarray) else lam
         try:
-            got = admm.admm_optimize_theta(S, lam, W, N, rho=case["rho"]).theta
+            got = admm.admm_optimize_theta(S, lam, W, N, **kw).theta
         except Exception as e:
             raise Violation(f"sparsity weight {v} given as {name} raised {type(e).__name__}: {str(e)[:120]}; as a Python float it is accepted")
         if got.shape != ref.shape or not np.array_equal(got.view(np.uint64), ref.view(np.uint64)):
@@ -118,7 +123,8 @@ def execute_opt(case, t):
 @st.composite
 def relabel_case(draw):
     return {"K": draw(st.integers(2, 4)), "n": draw(st.integers(1, 4)), "T": draw(st.integers(5, 40)),
-            "seed": draw(st.integers(0, 2 ** 32 - 1)), "v": draw(st.sampled_from(VALUES))}
+            "seed": draw(st.integers(0, 2 ** 32 - 1)), "v": draw(st.sampled_from(VALUES + [0.0, 0.0])),
+            "duplicate_cluster": draw(st.sampled_from([False, False, True]))}
 
 
 def _relabel(case, beta):
@@ -135,6 +141,10 @@ def _relabel(case, beta):
         B = rng.normal(size=(n, n))
         ms.clusters[k].train_inverse = B @ B.T + np.eye(n)
         ms.clusters[k].stacked_data_mean = rng.normal(size=n) + k * 1.5
+    if case.get("duplicate_cluster"):
+        # two clusters with the very same model: every point is exactly equally cheap in both (exact ties in the table)
+        ms.clusters[K - 1].train_inverse = ms.clusters[0].train_inverse.copy()
+        ms.clusters[K - 1].stacked_data_mean = ms.clusters[0].stacked_data_mean.copy()
     out = cluster_label_assignment.predict_cluster_labels(ms, data)
     return [int(x) for x in out.point_labels], float(out.label_assignment_cost)
 
